@@ -53,6 +53,8 @@ func init() {
 			case len(t) == 2 && t[0] == "reset":
 				store.reset()
 				return "ok"
+			case len(t) >= 1 && t[0] == "conc":
+				return runAbmfConc(t)
 			case len(t) == 10 && t[0] == "ccr":
 				sess, _ := unhex(t[1])
 				sub, _ := unhex(t[6])
@@ -187,5 +189,15 @@ func genAbmf(o genOpts, w *bufio.Writer) {
 				reqType, r.intn(1<<20), actTok, subType, hexOf([]byte(ue[5:])), rg, amt(), amt())
 			done++
 		}
+	}
+	// reservations for one account arriving on several connections at once (abmfconc.go): plenty of money, money that runs
+	// out half way, a balance the requests do not divide
+	fmt.Fprintf(w, "abmf reset x\n")
+	concs := [][5]int{{1000000, 8, 40, 1}, {100, 8, 40, 3}, {1000, 16, 25, 7}}
+	if o.tier == "thorough" {
+		concs = append(concs, [5]int{5000, 32, 50, 3}, [5]int{0, 8, 20, 5}, [5]int{123456789, 4, 200, 1000}, [5]int{999, 64, 10, 2})
+	}
+	for k, c := range concs {
+		fmt.Fprintf(w, "abmf conc %s %d %d %d %d %d\n", hexOf([]byte(fmt.Sprintf("imsi-20893%04d%06d", o.seed%10000, 500+k))), 1+k%2, c[0], c[1], c[2], c[3])
 	}
 }
